@@ -24,6 +24,8 @@ import ClairModel.Proofs.CvssEnvSweepU
 import ClairModel.Proofs.CvssEnvSweepC
 import ClairModel.Proofs.CvssEnvSweepC2
 import ClairModel.Proofs.CvssEnv2
+import ClairModel.Proofs.CvssOsvRaw
+import ClairModel.Proofs.CvssOsvRaw2
 
 -- every variable of a property statement is bound explicitly: a misspelt name is an error, not a new variable
 set_option autoImplicit false
@@ -361,5 +363,52 @@ theorem osv_severity_eq_base_band_v2 {s : Bytes} {v : Vec} (h : parse2 s = some 
   rw [osv2_print2_base v hv]
   exact osv_severity_eq_band_v2 (mem 0 (by decide)) (mem 1 (by decide)) (mem 2 (by decide)) (mem 3 (by decide))
     (mem 4 (by decide)) (mem 5 (by decide))
+
+/-! ### the OSV scorer on the raw input string -/
+
+/-- `fromCVSS3` applied to the INPUT string itself: for every string `ParseV3`
+    accepts — metrics in any order, temporal and environmental metrics
+    anywhere between them, explicit X — the string loop of `fromCVSS3`
+    (TrimRight, Split, label checks, Cut, switch tables, its own arithmetic)
+    derives the rating of the score the vector library computes for the base
+    part of the parsed vector -/
+theorem osv_severity_raw_input_v3 {s : Bytes} {v : Vec} (h : parse3 s = some v) :
+    ∃ k, score3 (baseOf3 v) = some k ∧ osv3 s = some (rating k) := by
+  obtain ⟨k, h1, h2⟩ := osv_severity_eq_base_rating_v3 h
+  exact ⟨k, h1, by rw [osv3_raw h, ← osv3_print3_base v (parse3_sound h)]; exact h2⟩
+
+/-- hence the OSV severity is independent of the order in which an accepted
+    string lists its metrics: two accepted strings of the same vector get the
+    same severity -/
+theorem osv_severity_order_independent_v3 {s t : Bytes} {v : Vec} (hs : parse3 s = some v) (ht : parse3 t = some v) :
+    osv3 s = osv3 t := by
+  rw [osv3_raw hs, osv3_raw ht]
+
+/-
+  Full statement for the language `fromCVSS3` itself accepts (it is wider than
+  `ParseV3`'s: a metric may occur twice, base metrics may be missing as long
+  as there are eight pieces): "the severity does not depend on the order of
+  the pieces, and an accepted string is a vector".  The code violates both:
+-/
+
+/-- counterexample: two strings with the same pieces in a different order —
+    AV twice, the last occurrence wins — get Critical (9.8) and Medium (6.8);
+    `ParseV3` rejects both -/
+theorem osv_order_dependent_counterexample :
+    (splitOn cSlash osvDupWitnessA).isPerm (splitOn cSlash osvDupWitnessB) = true ∧
+    parse3 osvDupWitnessA = none ∧ parse3 osvDupWitnessB = none ∧
+    osv3 osvDupWitnessA = some 5 ∧ osv3 osvDupWitnessB = some 3 := by decide +kernel
+
+/-- counterexample: eight non-base metrics and no base metric at all are
+    accepted by `fromCVSS3` and rated Negligible; `ParseV3` rejects the string -/
+theorem osv_accepts_incomplete_counterexample :
+    parse3 osvNoBaseWitness = none ∧ osv3 osvNoBaseWitness = some 1 := by decide +kernel
+
+/-- `fromCVSS2` applied to the INPUT string: for every string `ParseV2`
+    accepts, the documented band of the library's base score -/
+theorem osv_severity_raw_input_v2 {s : Bytes} {v : Vec} (h : parse2 s = some v) :
+    ∃ k, score2 (baseOf2 v) = some k ∧ osv2 s = inBands osvDocV2 k := by
+  obtain ⟨k, h1, h2⟩ := osv_severity_eq_base_band_v2 h
+  exact ⟨k, h1, by rw [osv2_raw h]; exact h2⟩
 
 end ClairModel.Props.C18
